@@ -21,6 +21,8 @@ VERIF = os.path.dirname(os.path.dirname(os.path.abspath(__file__)))
 BUILD = os.environ.get("RKSIM_BUILD", os.path.join(VERIF, "build"))
 REPO = os.environ.get("RKSIM_REPO", "/repo")
 NCPU = int(os.environ.get("RKSIM_WORKERS", "16"))
+# RKSIM_OUT: where evidence/ and replays/ go (seeded evaluation on a scratch worktree must not overwrite the committed evidence)
+OUT = os.environ.get("RKSIM_OUT", VERIF)
 
 SIM_LANES = ["debug", "internal", "omp", "tbb"]
 
@@ -160,7 +162,7 @@ def gate_and_minimise(prop, lane, sig, path, tier):
         if "REPRODUCED" not in out:
             log("BROKEN: replay of %s diverged: %s" % (path, out))
             return None, out
-    rdir = os.path.join(VERIF, "replays")
+    rdir = os.path.join(OUT, "replays")
     os.makedirs(rdir, exist_ok=True)
     final = os.path.join(rdir, "%s_%s_%s.json" % (prop, lane, sig_slug(sig)))
     tmp = final + ".tmp"
@@ -350,8 +352,8 @@ def main():
             "exploration is seeded sampling: a clean batch is evidence, not proof",
         ],
     }
-    os.makedirs(os.path.join(VERIF, "evidence"), exist_ok=True)
-    with open(os.path.join(VERIF, "evidence", prop + ".json"), "w") as f:
+    os.makedirs(os.path.join(OUT, "evidence"), exist_ok=True)
+    with open(os.path.join(OUT, "evidence", prop + ".json"), "w") as f:
         json.dump(evidence, f, indent=1)
     log("%s %s: %d runs, %d distinct nontrivial, %d scheduling points, %.1fs wall, %d runs/h" %
         (prop, tier, ev["runs"], distinct, ev["steps"], wall, runs_per_hour))
